@@ -62,6 +62,17 @@ CLAIMS = {
               "produce exactly that sequence, and Compile under a real Patch visitor must behave as Compile of the "
               "patched source on every assignment.",
               "DESIGN.md section 6 C10", "TLA+ traversal specification; TLC-enumerated trees walked and patched for real"),
+    "C11": _c("model_checking",
+              "Grammar.tla is the reference grammar: the binding-power and associativity tables, a printer writing only "
+              "the parentheses the tables require, a printer writing all of them, and the reference parser RefParse over "
+              "token sequences. TLC checks on every syntax tree of five families up to the node budget that RefParse maps "
+              "both printings back to the tree (RoundTrip) and that every parenthesis of the minimal printing is "
+              "required (ParensRequired), and emits each tree with five texts (minimal/all parentheses x none/single/"
+              "irregular multi-line spacing) and every token sequence up to the length bound over three alphabets with "
+              "RefParse's verdict; the real parser.Parse must return exactly that tree, or reject where the reference "
+              "rejects. Bounded-exhaustive over trees and token sequences is the right level: a changed binding power "
+              "or associativity alters only the pairings it affects, all of which are enumerated.",
+              "DESIGN.md section 6 C11", "TLA+ reference grammar (printer + precedence-climbing parser); TLC-enumerated trees and token sequences parsed for real"),
     "C14": _c("model_checking",
               "Prim!Arith is the promotion rule of the property; TLC enumerates every pair of the 12 numeric kinds x every "
               "arithmetic/comparison operator x 1-3 values per kind (extrema included), plus nested random combinations; the "
